@@ -1,9 +1,10 @@
 From Coq Require Import Extraction ExtrOcamlBasic.
-From PV Require Import Lib.ExtractBase Model.ConfigDecode Model.ConfigApplied Gen.ConfigSchemaGen.
+From PV Require Import Lib.ExtractBase Model.ConfigDecode Model.ConfigIntLiteral Model.ConfigApplied Gen.ConfigSchemaGen.
 Extraction Language OCaml.
 Extraction "extracted/C17_model.ml" xb_types decode_and_validate decode fuel_for cli_prepass classify accepted_b
   schema_at reach classify_node wrong_type_b wrong_type_str_b defaults_kept_b erase cval_eqb check_field validate
   lookup_entry plugin_entry flat_fields insert_key replace_at zero_of struct_cur model_factory_lazy
   prop_of_files env_of_list ctor_rels ocond_b ctor_field_ok ctor_ok hdr_line hdr_decode
+  parse_int parse_uint
   is_type_key applied_of lookup_applied expected_group expected_opt opt_at
   gen_registry gen_root_schema gen_root_default gen_applied.
